@@ -61,8 +61,8 @@ theorem ex_specText : specText CharClass.ascii 20 exSrc = .value (.int 8) [] := 
 
 /-- NON-VACUITY of `wrap_same_behaviour`: both programs compile, so on the machine model both texts get the
     same answer for every large enough budget (or one of them hits the stack/frame limit) -/
-example : (∃ n o, ∀ k, evalText CharClass.ascii (n + k) exSrc = .error .index o) ∨
-    (∃ n o, ∀ k, evalText CharClass.ascii (n + k) exSrcW = .error .index o) ∨
+example : TextHitsLimit CharClass.ascii exSrc ∨
+    TextHitsLimit CharClass.ascii exSrcW ∨
     ∃ n, ∀ k, evalText CharClass.ascii (n + k) exSrc = evalText CharClass.ascii (n + k) exSrcW := by
   have d1 : (match compileProgram exAst with | .ok _ => true | .error _ => false) = true := by decide
   have d2 : (match compileProgram (wrap exAst) with | .ok _ => true | .error _ => false) = true := by decide
